@@ -18,7 +18,12 @@ def main():
     mp = os.path.join(S, 'MATRIX.json')
     if os.path.exists(mp) and len(ids) < 40:
         out = json.load(open(mp))
-    for i in ids:
+    jobs = 1
+    for a in sys.argv[1:]:
+        if a.startswith('--jobs='):
+            jobs = int(a.split('=')[1])
+
+    def one(i):
         d = os.path.join(S, i)
         meta = json.load(open(os.path.join(d, 'meta.json')))
         props = meta.get("detected_by") or [meta["breaks_property"]]
@@ -34,9 +39,14 @@ def main():
         for k, v in (r.get('checks') or {}).items():
             row['checks'][k] = {'exit': v['exit'], 'violations': v['violations'], 'wall_s': v['wall'],
                                 'first': [f.replace('violation: ', '')[:200] for f in v['first'][:1]]}
-        out[i] = row
-        print(i, json.dumps(row)[:300], flush=True)
-        json.dump(out, open(mp, 'w'), indent=1, sort_keys=True)
+        return i, row
+
+    from concurrent.futures import ThreadPoolExecutor
+    with ThreadPoolExecutor(jobs) as ex:
+        for i, row in ex.map(one, ids):
+            out[i] = row
+            print(i, json.dumps(row)[:300], flush=True)
+            json.dump(out, open(mp, 'w'), indent=1, sort_keys=True)
     with open(os.path.join(S, 'MATRIX.md'), 'w') as f:
         f.write('| seeded change | demo without/with patch (exit) | check | exit | VIOLATION lines | first violation |\n|---|---|---|---|---|---|\n')
         for i in sorted(out):
